@@ -33,6 +33,7 @@ type Obligation struct {
 	Vars      []string // symbols of interest for the model
 	BeforeUpto  int    // cover after a call: prefix length and reach before the call
 	BeforeReach Term
+	Extra       []string // assertions for this obligation only (instances of universal assumptions)
 }
 
 type allocInfo struct {
@@ -75,6 +76,7 @@ type VC struct {
 	stable   []*Shape // locations unknown calls are assumed not to touch
 	inQuant  int      // >0 while evaluating under a quantifier: terms mention bound variables
 	univ     []func(inst []Term) // re-states the universal assumptions made so far at given terms
+	capture  *[]string
 }
 
 func newVC(e *Engine, fn *ssa.Function, c *Contract) *VC {
@@ -89,7 +91,13 @@ func newVC(e *Engine, fn *ssa.Function, c *Contract) *VC {
 	return vc
 }
 
-func (vc *VC) emit(cmd string) { vc.cmds = append(vc.cmds, cmd) }
+func (vc *VC) emit(cmd string) {
+	if vc.capture != nil {
+		*vc.capture = append(*vc.capture, cmd)
+		return
+	}
+	vc.cmds = append(vc.cmds, cmd)
+}
 
 func (vc *VC) declare(name, sort string) {
 	if vc.declared[name] {
@@ -151,12 +159,62 @@ func groundIndexTerms(goal Term, max int) []Term {
 	return out
 }
 
+// expandMacros: one level of textual expansion of non-recursive spec definitions, so that the
+// array reads they stand for are visible when instantiation terms are collected.
+func (vc *VC) expandMacros(t Term, depth int) Term {
+	if depth > 3 || !strings.HasPrefix(t, "(") {
+		return t
+	}
+	args := sexprArgs(t)
+	if len(args) == 0 {
+		return t
+	}
+	for i := 1; i < len(args); i++ {
+		args[i] = vc.expandMacros(args[i], depth)
+	}
+	if m, ok := vc.eng.cs.Macros[strings.Trim(args[0], "|")]; ok && len(m.Params) == len(args)-1 {
+		body := m.Body
+		// substitute parameters (token-wise)
+		toks := tokenize(body)
+		for i, tk := range toks {
+			for k, p := range m.Params {
+				if tk == p {
+					toks[i] = args[k+1]
+				}
+			}
+		}
+		var sb strings.Builder
+		for i, tk := range toks {
+			if i > 0 && tk != ")" && toks[i-1] != "(" {
+				sb.WriteByte(' ')
+			}
+			sb.WriteString(tk)
+		}
+		return vc.expandMacros(sb.String(), depth+1)
+	}
+	return "(" + strings.Join(args, " ") + ")"
+}
+
+// obligeHinted: oblige with instances of the universal assumptions, local to this obligation.
+func (vc *VC) obligeHinted(st *State, kind, name string, goal Term, sks []Term, pos token.Pos, src string) *Obligation {
+	var buf []string
+	old := vc.capture
+	vc.capture = &buf
+	vc.instantiateForGoal(goal, sks)
+	vc.capture = old
+	o := vc.oblige(st, kind, name, goal, pos, src)
+	if o != nil {
+		o.Extra = buf
+	}
+	return o
+}
+
 func (vc *VC) instantiateForGoal(goal Term, sks []Term) {
 	var inst []Term
 	for _, sk := range sks {
 		inst = append(inst, sk, iSub(sk, "1"), iAdd(sk, "1"))
 	}
-	inst = append(inst, groundIndexTerms(goal, 24)...)
+	inst = append(inst, groundIndexTerms(vc.expandMacros(goal, 0), 24)...)
 	if len(inst) == 0 {
 		return
 	}
@@ -275,6 +333,10 @@ func (vc *VC) script(o *Obligation, model bool) string {
 		body.WriteString(c)
 		body.WriteString("\n")
 	}
+	for _, c := range o.Extra {
+		body.WriteString(c)
+		body.WriteString("\n")
+	}
 	body.WriteString("(assert " + sAnd(o.Reach, sNot(o.Goal)) + ")\n(check-sat)\n")
 	bs := body.String()
 	for _, s := range vc.eng.cs.specsFor(bs) {
@@ -295,6 +357,7 @@ type State struct {
 	reach   Term
 	heap    map[string]Term
 	epoch   int             // 0 = entry; >0 = id of the last total havoc
+	gepoch  int             // same for ghost state (modifies ghost.*)
 	deferOn map[*ssa.Defer]Term
 	panicking bool          // executing on the exceptional path
 	panicVal  Value         // value being panicked with
@@ -302,7 +365,7 @@ type State struct {
 }
 
 func (st *State) clone() *State {
-	n := &State{reach: st.reach, heap: make(map[string]Term, len(st.heap)), epoch: st.epoch,
+	n := &State{reach: st.reach, heap: make(map[string]Term, len(st.heap)), epoch: st.epoch, gepoch: st.gepoch,
 		deferOn: make(map[*ssa.Defer]Term, len(st.deferOn)), panicking: st.panicking, panicVal: st.panicVal, recovered: st.recovered}
 	for k, v := range st.heap {
 		n.heap[k] = v
@@ -330,12 +393,33 @@ func (vc *VC) get(st *State, key, sort string) Term {
 	}
 	vc.famSort[key] = sort
 	ep := st.epoch
-	if strings.HasPrefix(key, "ghost.") || strings.HasPrefix(key, "S.") || strings.HasPrefix(key, "GI.") {
+	if strings.HasPrefix(key, "S.") || strings.HasPrefix(key, "GI.") || key == allocKey {
 		ep = 0 // never havocked by unknown code
+	} else if strings.HasPrefix(key, "ghost.") {
+		// ghost state: untouched by unknown code, arbitrary after a call that modifies ghost.*
+		if st.gepoch == 0 {
+			ep = 0
+		} else {
+			n := sym(fmt.Sprintf("%s@G%d", key, st.gepoch))
+			vc.declare(n, sort)
+			return n
+		}
 	}
 	n := vc.famName(key, ep)
 	vc.declare(n, sort)
 	return n
+}
+
+// havocAllGhost: a callee whose frame is "ghost.*" ran: every ghost family is arbitrary afterwards
+// (the set of allocated references only grows).
+func (vc *VC) havocAllGhost(st *State) {
+	vc.epochN++
+	st.gepoch = vc.epochN
+	for k := range st.heap {
+		if strings.HasPrefix(k, "ghost.") && k != allocKey {
+			delete(st.heap, k)
+		}
+	}
 }
 
 func (vc *VC) set(st *State, key, sort string, t Term) {
@@ -491,7 +575,26 @@ func (vc *VC) merge(states []*State) *State {
 			sameEpoch = false
 		}
 	}
+	sameG := true
+	for _, s := range states[1:] {
+		if s.gepoch != states[0].gepoch {
+			sameG = false
+		}
+	}
+	if sameG {
+		out.gepoch = states[0].gepoch
+	} else {
+		vc.epochN++
+		out.gepoch = vc.epochN
+	}
 	keys := map[string]bool{}
+	if !sameG {
+		for k := range vc.famSort {
+			if strings.HasPrefix(k, "ghost.") {
+				keys[k] = true
+			}
+		}
+	}
 	if sameEpoch {
 		out.epoch = states[0].epoch
 		for _, s := range states {
@@ -522,7 +625,7 @@ func (vc *VC) merge(states []*State) *State {
 			}
 		}
 		if same {
-			if t, ok := states[0].heap[k]; ok || !sameEpoch {
+			if t, ok := states[0].heap[k]; ok || !sameEpoch || !sameG {
 				_ = t
 				out.heap[k] = vals[0]
 			}
